@@ -28,7 +28,59 @@ impl std::os::fd::AsFd for SharedFd {
     }
 }
 
-pub type GenSrc = Wrap<Generic<SharedFd>>;
+/// What the program inserts for an fd source: a source of its own that holds a `Generic` by
+/// value, forwards everything to it and, when the callback asks for it, unwraps it *while it is
+/// registered* (handing the IO object back) and removes itself - the only way user code gets to
+/// call `Generic::unwrap` on a registered source.
+pub struct Holder {
+    pub g: Option<Generic<SharedFd>>,
+    pub sh: Rc<crate::wrap::WrapShared>,
+}
+
+impl calloop::EventSource for Holder {
+    type Event = calloop::Readiness;
+    type Metadata = calloop::generic::NoIoDrop<SharedFd>;
+    type Ret = std::io::Result<calloop::PostAction>;
+    type Error = std::io::Error;
+
+    fn process_events<F>(&mut self, readiness: calloop::Readiness, token: calloop::Token, callback: F) -> Result<calloop::PostAction, Self::Error>
+    where
+        F: FnMut(Self::Event, &mut Self::Metadata) -> Self::Ret,
+    {
+        let Some(g) = &mut self.g else { return Ok(calloop::PostAction::Continue) };
+        let r = g.process_events(readiness, token, callback)?;
+        if self.sh.unwrap_now.replace(false) {
+            let io = self.g.take().unwrap().unwrap();
+            drop(io);
+            self.sh.unwrapped.set(true);
+            return Ok(calloop::PostAction::Remove);
+        }
+        Ok(r)
+    }
+
+    fn register(&mut self, poll: &mut calloop::Poll, tf: &mut calloop::TokenFactory) -> calloop::Result<()> {
+        match &mut self.g {
+            Some(g) => g.register(poll, tf),
+            None => Ok(()),
+        }
+    }
+
+    fn reregister(&mut self, poll: &mut calloop::Poll, tf: &mut calloop::TokenFactory) -> calloop::Result<()> {
+        match &mut self.g {
+            Some(g) => g.reregister(poll, tf),
+            None => Ok(()),
+        }
+    }
+
+    fn unregister(&mut self, poll: &mut calloop::Poll) -> calloop::Result<()> {
+        match &mut self.g {
+            Some(g) => g.unregister(poll),
+            None => Ok(()),
+        }
+    }
+}
+
+pub type GenSrc = Wrap<Holder>;
 pub type TimerSrc = Wrap<Timer>;
 
 #[derive(Clone, Copy, Debug, PartialEq, Eq)]
